@@ -232,7 +232,7 @@ def _(n, items):
 @op('get_int')
 def _(l, i): return oP(PL(l)[int(i)])
 @op('get_slice')
-def _(l, a, b): return oPL(PL(l)[slice(None if a is None else int(a), None if b is None else int(b))])
+def _(l, a, b, st=None): return oPL(PL(l)[slice(None if a is None else int(a), None if b is None else int(b), None if st is None else int(st))])
 @op('get_mask')
 def _(l, m): return oPL(PL(l)[torch.tensor([bool(b) for b in m])])
 @op('get_idx')
